@@ -257,7 +257,7 @@ func main() {
 	c := kit.Parse("C20", args)
 	tfLen, mixLen, sysLen, nRand := 9, 4, 4, 300
 	if c.Thorough() {
-		tfLen, mixLen, sysLen, nRand = 12, 6, 6, 3000
+		tfLen, mixLen, sysLen, nRand = 12, 5, 5, 3000
 	}
 	// corpus first: the history of F1
 	runTracker(c, []int{0, 0, 0, 0, 1, 1, 0})
